@@ -70,6 +70,27 @@ def r1_key(ctx, outs):
         'alpha': has(lambda s: s == ('p', 5)),
         'beta': has(lambda s: s == ('p', 6)),
     }
+    # the key must separate its components: each component is an influencer itself or a packing that is provably injective (disjoint bit
+    # ranges, no information shifted / masked / sign-extended away) - decided by bit-range analysis, for the whole domain
+    from sa.bits import injective
+    fn = ctx.facts.need_fn(MINIMAX)
+
+    def leaf_ty(t_):
+        if t_[0] == 'p' and isinstance(t_[1], int):
+            return fn.local_ty(t_[1])
+        if t_[0] == 'call' and t_[1] == BOARD + '::current_position_hash':
+            return 'u64'
+        if t_[0] == 'call' and t_[1] == BOARD + '::turn':
+            return 'u8'
+        return None
+    for i_, c_ in enumerate(comps):
+        if leaf_ty(c_) is not None:
+            continue
+        ok_, leaves, reason = injective(c_, leaf_ty)
+        ctx.ob(rule, MINIMAX, 'key component %d is an injective packing of the values it covers' % i_, ok_, found={'component': show(c_)[:300], 'reason': reason},
+               expected='fields kept apart: disjoint bit ranges, nothing shifted, masked or sign-extended over another field',
+               why='two nodes that differ in remaining depth, side to move or window must not share a cache entry: a packed key in which one '
+                   'field can overwrite another (e.g. a sign-extended window over the depth bits) makes them collide')
     # influencers: parameters used in conditions, returned values or recursive arguments
     used = set()
     for o in outs:
@@ -132,6 +153,19 @@ def loop_info(outs, flag):
         if o.kind == 'return':
             st = [e for e in o.events if e[0] == 'call' and e[1] == SET]
             info['ret'].add(('cut', o.value, st[0][2][2] if st else None, st[0][2][1] if st else None))
+        # conditions decided inside the iteration (after the loop head): besides the cut-off comparison only the plumbing may branch
+        # (iterator exhausted?, apply/undo/child returned Ok?) - any other test is a second way of leaving, or skipping part of, the loop
+        if o.kind in ('return', 'backedge') and len(head) > 4:
+            for a, v in o.conds[head[4]:]:
+                if a[0] == 'bin' and a[1] in ('Le', 'Ge', 'Lt', 'Gt') and any(s == child for s in subterms(a)):
+                    continue
+                x = a[1] if a[0] == 'discr' else None
+                while x is not None and x[0] == 'fld':
+                    x = x[1]
+                if x is not None and x[0] == 'call' and (x[1] == MINIMAX or x[1].startswith(CHESSMOVE) or x[1].endswith('Iterator>::next')
+                                                         or x[1].endswith('::next')):
+                    continue
+                info.setdefault('extra', set()).add((o.kind, show_cond((a, v))[:200]))
     return info
 
 
@@ -191,6 +225,11 @@ def r2_duality(ctx, outs, key):
                 okc = True
         ctx.ob(rule, MINIMAX, '%s: cut-off test is beta <= alpha on the updated bound' % name, okc,
                found=[show(a) for a, k in info['cut']], expected='beta <= alpha')
+        extra = sorted(info.get('extra', ()))
+        ctx.ob(rule, MINIMAX, '%s: every candidate is searched unless the window has closed (no other exit from, or shortcut inside, the move loop)' % name,
+               not extra, found=extra[:4], expected='the only data-dependent branch of an iteration is beta <= alpha',
+               why='stopping at the first "good enough" child (e.g. any forced mate) returns a value that is not the minimax value when a later '
+                   'child is better (a quicker mate scores higher)')
         # stored and returned value
         okr = bool(info['ret'])
         for kind, val, stored, skey in info['ret']:
